@@ -239,8 +239,15 @@ inductive SegEnd where
   | yield | ret | raise (e : Exc)
   deriving DecidableEq, Repr, Inhabited
 
+/-- what the consumer does on the same thread while the generator is suspended, right before it resumes it:
+    nothing, a read-only `with db_session:` of its own, or a `with db_session:` that writes one row -/
+inductive Between where
+  | none | read | write (w : Write)
+  deriving DecidableEq, Repr, Inhabited
+
 /-- what the generator body does between two suspension points -/
 structure Seg where
+  before : Between := .none           -- the consumer's own session before this resume
   writes : List Write := []
   manualCommit : Bool := false        -- the body calls `commit()` itself after `writes`
   late : List Write := []
@@ -286,13 +293,24 @@ def wrappedInteract (env : Env) (o : Opts) (seg : Seg) (resume : Resume) (copy :
     -- `finally: db2cache_copy.update(local.db2cache); local.db2cache.clear(); counter = 0; db_session = None`
     ({ r.1 with pending := [], counter := DbSessionGen.genCounterAfter, session := none }, r.1.pending, r.2)
 
+/-- the consumer's own `with db_session: ...` (module-level default session) between two resumes -/
+def betweenRun (env : Env) : Between → St → St × Outcome
+  | .none, s => (s, .ret)
+  | .read, s =>
+    cm env {} (fun s => if s.session.isSome then ({ s with trace := s.trace ++ [.saw (s.committed ++ s.pending)] }, .ret)
+                        else (s, .raise .noSession)) s
+  | .write w, s => cm env {} (fun s => (addWrites s [w], .ret)) s
+
 def iterLoop (env : Env) (o : Opts) : List (Seg × Resume) → List Write → St → St × Outcome
   | [], _, s => (s, .ret)                       -- the consumer stops; the generator stays suspended
   | (seg, r) :: rest, copy, s =>
-    match wrappedInteract env o seg r copy s with
-    | (s1, copy1, .yielded) => iterLoop env o rest copy1 s1
-    | (s1, _, .stopped) => (s1, .ret)
-    | (s1, _, .raised e) => (s1, .raise e)
+    match betweenRun env seg.before s with
+    | (s0, .raise e) => (s0, .raise e)          -- the consumer's own session failed (its commit): it does not resume
+    | (s0, .ret) =>
+      match wrappedInteract env o seg r copy s0 with
+      | (s1, copy1, .yielded) => iterLoop env o rest copy1 s1
+      | (s1, _, .stopped) => (s1, .ret)
+      | (s1, _, .raised e) => (s1, .raise e)
 
 /-- decorate a generator function with `db_session(**o)` and drive it with the given resume script -/
 def iterGen (env : Env) (o : Opts) (steps : List (Seg × Resume)) (s : St) : St × Outcome :=
